@@ -1,10 +1,17 @@
 (* C15 Futures handles obey the Sink/Stream contract and match the plain queue.
-   Proved here, for every reachable state: a task call (poll, start_send, poll_complete) is never at a program
-   counter of the blocking wait strategies (no condition-variable wait, no Wait::wait spin loop inside the call).
-   The NotReady-identity and the equality with the plain handles are established by the correspondence and the
-   oracles only (see MANIFEST level_note). *)
+   Proved here:
+   - for every reachable state: a task call (poll, start_send, poll_complete) is never at a program counter of the
+     blocking wait strategies (no condition-variable wait, no Wait::wait spin loop inside the call);
+   - C15_refused_send_hands_back_its_value: whenever a step of a send (try_send, and start_send, which runs the same
+     code) sets the result to Full - what the Sink reports as NotReady(message) - the value in the result is the
+     very value the call was given, and that step has written nothing to the ring (claim log, head counter, cells and
+     tags unchanged); it is one of the five steps that can refuse (full test on the cached tail, full test after the
+     scan on either path, reference-count test on either path), all of which come before the claiming step.
+   The equality of results with the plain handles is established by the correspondence and the oracles (the futures
+   calls run the same attempt code: same program counters of the model, same source functions). *)
 From Coq Require Import NArith List Bool.
-Require Import MQ.Arith64 MQ.Types MQ.State MQ.Model MQ.Exec MQ.Reach MQ.Ctl MQ.CtlFacts.
+Require Import MQ.Arith64 MQ.Types MQ.State MQ.Model MQ.Exec MQ.Reach MQ.Ctl MQ.CtlFacts MQ.FullStep.
+Import ListNotations.
 Open Scope N_scope.
 
 Theorem C15_task_calls_never_block : forall c fut s a A,
@@ -23,3 +30,20 @@ Proof.
   exists (reach_by (mk_cfg MPMC 1 (WFut 0 0)) true (Start 1 CPoll :: Step 1 :: nil)).
   eexists. split; [apply reach_run|]. vm_compute. repeat split.
 Qed.
+
+Theorem C15_refused_send_hands_back_its_value : forall c me A S o v,
+  micro c me A S = Some o -> is_full (r_res (a_r A)) = false -> r_res (a_r (o_a o)) = RFull v ->
+  v = r_v (a_r A) /\ g_log (o_s o) = g_log S /\ head (o_s o) = head S /\ cells (o_s o) = cells S /\ tags (o_s o) = tags S /\
+  (a_pc A = P2 \/ a_pc A = P3 \/ a_pc A = P4 \/ a_pc A = M3post \/ a_pc A = M4).
+Proof. exact micro_full. Qed.
+Check C15_refused_send_hands_back_its_value : forall c me A S o v,
+  micro c me A S = Some o -> is_full (r_res (a_r A)) = false -> r_res (a_r (o_a o)) = RFull v ->
+  v = r_v (a_r A) /\ g_log (o_s o) = g_log S /\ head (o_s o) = head S /\ cells (o_s o) = cells S /\ tags (o_s o) = tags S /\
+  (a_pc A = P2 \/ a_pc A = P3 \/ a_pc A = P4 \/ a_pc A = M3post \/ a_pc A = M4).
+Print Assumptions C15_refused_send_hands_back_its_value.
+
+Example C15_refused_witness :
+  let c := mk_cfg MPMC 1 (WFut 0 0) in
+  let s := reach_by c true (Start 0 (CStartSend 5) :: repeat (Step 0) 9 ++ Start 0 (CStartSend 6) :: repeat (Step 0) 8) in
+  exists A, get (ags s) 0 = Some A /\ g_log (sh s) = [0] /\ is_full (r_res (a_r A)) = true /\ r_res (a_r A) = RFull (r_v (a_r A)).
+Proof. vm_compute. eexists. repeat split. Qed.
